@@ -12,7 +12,13 @@ from harness.core import Check, run_tlc, scratch, MachineryError, seed
 PCT = re.compile(r"^\r  tick   \[ (-?\d+)% complete  \|  ETA: (-?\d+) sec \]\s*$")
 FIN = re.compile(r"^\r  tick   \[ complete - (-?\d+) steps taken in (-?\d+):(-?\d+):(-?\d+) \]\s*$")
 CNT = re.compile(r"^\r  tick   \[ (-?\d+) steps taken, time remaining: (-?\d+):(-?\d+):(-?\d+) \]\s*$")
+PTP = re.compile(r"^\r  \[ Running ParallelTempering - (-?\d+)% complete   ETA: (-?\d+) sec \]\s*$")
+PTD = re.compile(r"^\r  \[ Running ParallelTempering - complete! \]\s*$")
 ITR = re.compile(r"^\r  EnsembleSampler:   \[ (\d+) / (\d+) iterations completed(?:  \|  ETA: (-?\d+) sec)? \]\s*$")
+
+
+def _quad(x):
+    return -0.5 * float(np.sum(np.asarray(x, dtype=float) ** 2))
 
 
 class Clock:
@@ -33,6 +39,14 @@ class Capture:
 
     def write(self, s):
         if s.strip() == "":
+            return len(s)
+        if PTD.match(s):
+            self.ev.append({"ev": "PtDone", "cyc": self.done()[0], "steps": self.done()[1], "t": self.ms(), "text": s.strip()})
+            return len(s)
+        m = PTP.match(s)
+        if m:
+            g = [str(max(-2 ** 18, min(2 ** 18, int(v)))) for v in m.groups()]
+            self.ev.append({"ev": "PtPct", "pct": int(g[0]), "eta": int(g[1]), "cyc": self.done()[0], "t": self.ms(), "text": s.strip()})
             return len(s)
         for rx, name in ((PCT, "Pct"), (FIN, "Final"), (CNT, "Count"), (ITR, "Iter")):
             m = rx.match(s)
@@ -163,6 +177,52 @@ def run(tier):
                         continue
                     runs.append((len(events), len(events) + len(ev), ident))
                     events += ev
+        # ParallelTempering.advance: real worker processes, the master's clock simulated (each take_steps call costs its steps x 3 ms)
+        import inference.mcmc.parallel as par
+        from inference.mcmc import GibbsChain
+        real_par_time = par.time
+        for n_adv, si in ((23, 5), (7, 10), (161, 3), (250, 5), (100, 2)) + (((534, 10), (53, 1)) if tier == "thorough" else ()):
+            clock = Clock()
+            par.time = clock
+            chains = [GibbsChain(posterior=_quad, start=np.array([0.1 * (i + 1), 0.2]), widths=np.array([0.5, 0.5]),
+                                 temperature=T, display_progress=False) for i, T in enumerate((1.0, 2.0))]
+            pt = par.ParallelTempering(chains)
+            cnt = {"cyc": 0, "steps": 0}
+            real_take, real_swap = pt.take_steps, pt.swap
+
+            def take(nn, real_take=real_take, cnt=cnt, clock=clock):
+                real_take(nn)
+                cnt["steps"] += nn
+                clock.t += 0.003 * nn
+
+            def swp(real_swap=real_swap, cnt=cnt):
+                real_swap()
+                cnt["cyc"] += 1
+            pt.take_steps, pt.swap = take, swp
+            ev = [{"ev": "Begin", "call": "pt_advance", "m": n_adv, "si": si, "display": True, "t": 0}]
+            sys.stdout = Capture(clock, lambda cnt=cnt: (cnt["cyc"], cnt["steps"]), clock.t, ev)
+            err = None
+            try:
+                pt.advance(n_adv, swap_interval=si)
+            except Exception as ex:
+                err = repr(ex)
+            sys.stdout = real[3]
+            try:
+                got = pt.return_chains()
+                added = int(got[0].chain_length) - 1
+            except Exception as ex:
+                err = err or repr(ex)
+                added = -1
+            pt.shutdown()
+            par.time = real_par_time
+            ev.append({"ev": "End", "added": added})
+            ck.case(("pt_advance", n_adv, si))
+            ident = {"call": "ParallelTempering.advance(%d, swap_interval=%d)" % (n_adv, si)}
+            if err:
+                ck.violation("ParallelTempering.advance raised", {**ident, "error": err}, site="ParallelTempering.advance")
+                continue
+            runs.append((len(events), len(events) + len(ev), ident))
+            events += ev
     finally:
         base.time, util.time, ens.time, sys.stdout = real
     d = scratch("progress_")
@@ -177,7 +237,7 @@ def run(tier):
     ck.tlc(rt, "progress_traces")
     ck.traces += len(runs)
     ck.count("progress_traces", "events", len(events))
-    ck.count("progress_traces", "messages", sum(1 for e in events if e["ev"] in ("Pct", "Final", "Count", "Iter")))
+    ck.count("progress_traces", "messages", sum(1 for e in events if e["ev"] in ("Pct", "Final", "Count", "Iter", "PtPct", "PtDone")))
     bad = sorted({int(m.group(1)) - 1 for x in rt.raw_printed for m in [re.match(r'<<"BAD", (\d+)>>', x)] if m})
     for i in bad[:40]:
         ident = next((r[2] for r in runs if r[0] <= i < r[1]), {})
